@@ -6,6 +6,8 @@
             | C <markers written to content.xml> | S <markers written to styles.xml>
             | R <before>/<in memory>/<saved> for every site (body, master, inside cAuto, sAuto, common styles)
             | H <package in the class `Handled`> <per site: in `HandledSite`>   (the hypotheses of resolve_preserved_partial)
+    sess <pkg args> ;; <pkg args> ;; ...      the (sub)documents a process reads, in that order (`loadSession`)
+      -> the `pkg` answer of every document, joined by ` ;; `
     names are `Wire.enc` strings; a resolution is a marker, `-` (dangling) or `~` (the site does not exist there)
 -/
 import OdfModel.StyleClash
@@ -60,15 +62,17 @@ def showRes (q : Pkg) (s : Site) : String :=
 def showDef (d : Def) : String :=
   toString d.marker ++ "=" ++ Wire.enc d.name ++ "(" ++ String.intercalate "," (d.refs.map (fun r => Wire.enc r.name)) ++ ")"
 
-def handle (line : String) : String :=
-  match line.trimAscii.toString.splitOn " " with
-  | "pkg" :: toks =>
-    match parsePkg toks with
-    | some p =>
-      let d := load p
-      let q := save d
-      let mp := memPkg d
-      "ok F " ++ words (d.fix.map (fun (a, b) => Wire.enc a ++ ">" ++ Wire.enc b))
+/-- `a ;; b ;; c` -> [a, b, c] -/
+def splitToks (l : List String) : List (List String) :=
+  l.foldr (fun t acc => if t == ";;" then [] :: acc else
+    match acc with
+    | [] => [[t]]
+    | g :: gs => (t :: g) :: gs) [[]]
+
+def answer (p : Pkg) (d : Doc) : String :=
+  let q := save d
+  let mp := memPkg d
+  "ok F " ++ words (d.fix.map (fun (a, b) => Wire.enc a ++ ">" ++ Wire.enc b))
         ++ " | L " ++ words ((d.common ++ d.auto).map showDef)
         ++ " ; " ++ words (d.body.map (fun r => Wire.enc r.name))
         ++ " ; " ++ words (d.master.map (fun r => Wire.enc r.name))
@@ -77,6 +81,16 @@ def handle (line : String) : String :=
         ++ " | R " ++ words ((allSites p).map (fun s => showOpt (resolveAt p s) ++ "/" ++ showRes mp s ++ "/" ++ showRes q s))
         ++ " | H " ++ (if decide (Handled p) then "1" else "0") ++ " "
         ++ String.ofList ((allSites p).map (fun s => if decide (HandledSite p s) then '1' else '0'))
+
+def handle (line : String) : String :=
+  match line.trimAscii.toString.splitOn " " with
+  | "pkg" :: toks =>
+    match parsePkg toks with
+    | some p => answer p (load p)
+    | none => "err bad-arg"
+  | "sess" :: toks =>
+    match (splitToks toks).mapM parsePkg with
+    | some ps => String.intercalate " ;; " ((ps.zip (loadSession ps)).map (fun (p, d) => answer p d))
     | none => "err bad-arg"
   | _ => "err bad-op"
 
